@@ -8,3 +8,8 @@ Definition code_is_fixed : bool := true.
 (* The "dict" branch of ModelObject.from_dict drops entries whose value is falsy (0.0):
    true = pinned code, false = after proposed_fixes/C08-dict-falsy-constant.diff (removes the filter). *)
 Definition dict_drops_zero : bool := false.
+
+(* samples_from_iterator reads a table ending with the four reserved columns by position:
+   false = code as it is, true = after proposed_fixes/C09-table-columns-by-position.diff
+   (then mark reserved-column-name fixed in known_findings/C09.json; C09_tree_csv_by_position is the theorem) *)
+Definition table_reads_by_position : bool := false.
